@@ -40,7 +40,7 @@ Codes == {0, 1, 2, 127, 255}
 Sizes == {0, 1, 4095, 4096, 65535, 65536, 200000}
 VARIABLES st, last
 vars == <<st, last>>
-Requests == [form : Forms, streams : 0..7, env : {0, 1}, code : Codes, size : Sizes]
+Requests == [form : Forms, streams : 0..7, env : {0, 1, 2, 3}, code : Codes, size : Sizes]
 Init == st \in Requests /\ last = 0
 Next == UNCHANGED vars
 Spec == Init /\ [][Next]_vars
